@@ -85,6 +85,7 @@ class err_handler(object):
         self.id = 'ROOT'
         #self.isa_loop_count = 0
         self.children = []
+        self.errors = []  # errors reported while no ISA/GS/ST loop is open
         self.cur_node = self
         self.cur_isa_node = None
         self.cur_gs_node = None
@@ -192,7 +193,7 @@ class err_handler(object):
         """
         """
         #pdb.set_trace()
-        if not self.seg_node_added:
+        if not self.seg_node_added and self.cur_st_node is not None:
             self.cur_st_node.children.append(self.cur_seg_node)
             self.seg_node_added = True
 
@@ -225,6 +226,11 @@ class err_handler(object):
         @param err_str: Description of the error
         @type err_str: string
         """
+        if self.cur_isa_node is None:
+            # no such loop is open: keep the error at the root
+            self.errors.append(('isa', err_cde, err_str))
+            logger.error('ISA:%s - %s' % (err_cde, err_str))
+            return
         sout = ''
         sout += 'Line:%i ' % (self.cur_isa_node.get_cur_line())
         sout += 'ISA:%s - %s' % (err_cde, err_str)
@@ -238,6 +244,11 @@ class err_handler(object):
         @param err_str: Description of the error
         @type err_str: string
         """
+        if self.cur_gs_node is None:
+            # no such loop is open: keep the error at the root
+            self.errors.append(('gs', err_cde, err_str))
+            logger.error('GS:%s - %s' % (err_cde, err_str))
+            return
         sout = ''
         sout += 'Line:%i ' % (self.cur_gs_node.get_cur_line())
         sout += 'GS:%s - %s' % (err_cde, err_str)
@@ -251,6 +262,11 @@ class err_handler(object):
         @param err_str: Description of the error
         @type err_str: string
         """
+        if self.cur_st_node is None:
+            # no such loop is open: keep the error at the root
+            self.errors.append(('st', err_cde, err_str))
+            logger.error('ST:%s - %s' % (err_cde, err_str))
+            return
         sout = ''
         sout += 'Line:%i ' % (self.cur_st_node.get_cur_line())
         sout += 'ST:%s - %s' % (err_cde, err_str)
@@ -352,7 +368,7 @@ class err_handler(object):
         count = 0
         for child in self.children:
             count += child.get_error_count()
-        return count
+        return count + len(self.errors)
 
     def get_first_child(self):
         """
